@@ -81,6 +81,10 @@ func init() {
 		b = append(b, fmt.Sprint(100+i))
 	}
 	big := fmt.Sprintf(`{"a":[%s],"b":[%s],"t":["12:00:00","13:00:00"],"z":"12:00:00+01"}`, strings.Join(a, ","), strings.Join(b, ","))
+	for _, pd := range [][2]string{{`strict $[1 to 2]`, `[1,2,3]`}, {`strict $[2 to last]`, `[1,2,3]`}, {`strict $.a[1 to $.n]`, `{"a":[1,2,3],"n":2}`}, {`strict $ ? (@[1 to 2] > 0)`, `[1,2,3]`},
+		{`strict $[1 to 2, 0 to 1]`, `[1,2,3]`}, {`$[1 to $.x]`, `[1,2,3]`}, {`strict $[$[0] to $[1]]`, `[1,2,3]`}, {`strict $[last - 1 to last].type()`, `[1,2,3]`}} {
+		c20Pool = append(c20Pool, struct{ p, d string }{pd[0], pd[1]})
+	}
 	for _, p := range []string{`$.a[*] == $.b[*]`, `$ ? (@.a[*] == @.b[*])`, `($.a[*] > $.b[*]) is unknown`, `strict $.a[*] == $.b[*]`, `$.a[*] == $.b[*] || $.a[0] == 0`,
 		`$.t[*].time() < $.z.time_tz()`, `$.a[*] ? (@ == $.b[*])`} {
 		c20Pool = append(c20Pool, struct{ p, d string }{p, big})
@@ -125,7 +129,8 @@ func checkCancelPoints(c *h.Ctx, p *path.Path, nodes int, ptxt, dtxt string, use
 	for k := 0; k <= K; k++ {
 		cs.Extra = map[string]string{"cause": causeName(combo.cause), "k": fmt.Sprint(k), "K": fmt.Sprint(K)}
 		doc := h.Decode(dtxt, useNum) // fresh document each time (purity not assumed)
-		m := &h.CallMon{CancelAt: k, Cause: combo.cause}
+		// (k = 0, cancelled by its owner: half of these contexts also had a deadline, which has passed since)
+		m := &h.CallMon{CancelAt: k, Cause: combo.cause, PastDeadline: k == 0 && combo.cause == context.Canceled && len(ptxt)%2 == 0}
 		o := h.CallMonitored(combo.entry, p, doc, opts, m)
 		c.Eval(1)
 		if K >= 2 {
